@@ -194,12 +194,14 @@ impl VSource for PeerSrc {
         loop {
             {
                 let mut g = self.st.lock().unwrap();
-                if g.closed {
-                    return Ok(VData::Eof);
-                }
                 if !g.responded && g.rx.windows(4).any(|w| w == b"\r\n\r\n") && !self.response.is_empty() {
                     g.responded = true;
                     return Ok(VData::Chunk(Bytes::from(self.response.clone())));
+                }
+                // the client's end of stream reached the destination: it ends its side too (after
+                // having answered a request it received)
+                if g.closed {
+                    return Ok(VData::Eof);
                 }
             }
             tokio::time::sleep(Duration::from_millis(5)).await;
